@@ -53,6 +53,13 @@ def make_scn(rng, real, failing=None):
         scn['gated'] = rng.random() < 0.7
         if not scn['gated']:
             scn['free_sleep'] = [0.0, 0.01, 0.03]
+    sim_deaths = backend == 'sim' and any(a in ('kill', 'exit', 'exit0') for a in scn['failing'].values())
+    if scn['cof'] and not scn.get('gated') and not sim_deaths and rng.random() < 0.3:
+        # the same Lab runs the same task objects once more (bust_cache); now OTHER tasks fail - ones that succeeded
+        # (and whose results were read by their dependents) in the first call
+        ok1 = [n for n in names if n not in scn['failing']]
+        if ok1:
+            scn['second_run'] = {'failing': {n: 'raise:ValueError' for n in rng.sample(ok1, min(len(ok1), rng.choice([1, 1, 2])))}}
     return scn
 
 
@@ -62,6 +69,9 @@ def judge(rep, scn, out):
     from vlab.props.dagprop import report_bad
     spec = scn['spec']
     req = scn.get('requested') or spec['requested']
+    sec = getattr(out, 'second', None)
+    if sec:
+        out.trace.calls = out.trace.calls[:len(out.trace.calls) - len(sec['calls'])]
     E, L = oracles.planned(scn, out)
     failing = {n: a for n, a in scn['failing'].items() if n in E}
     tainted = oracles.tainted_set(scn, out)
@@ -96,6 +106,8 @@ def judge(rep, scn, out):
             rep.count('untainted_values_checked', len(out.result_list))
             simdeaths = {n for n, a in failing.items() if a in ('kill', 'exit', 'exit0')} if scn['backend'] == 'sim' else set()
             for n in E:
+                if sec:
+                    break       # the storage now shows the outcome of the second call
                 if n in tainted:
                     if n in out.cached_after:
                         bad.append(('failed-task-cached', f'{n} failed (or read a failed dependency) but is '
@@ -133,6 +145,26 @@ def judge(rep, scn, out):
             if late or late_starts:
                 bad.append(('started-after-raise', f'tasks launched after run_tasks raised: '
                             f'{[e["name"] for e in late] + late_starts}'))
+    if sec:
+        from vlab.gen import closure
+        from vlab.model import taint
+        rep.count('second_calls_with_other_failures')
+        E2 = closure(spec, req)
+        failing2 = set(scn['second_run']['failing']) & set(E2)
+        tainted2 = taint(spec, failing2, set(E2))
+        if sec['exc']:
+            bad.append((f"raised:{sec['exc'].get('type')}@second-call", f'second run_tasks call (continue_on_failure=True) raised {sec["exc"]}'))
+        else:
+            got2 = [n for n, _ in sec['result_list']]
+            extra = [n for n in got2 if n in tainted2]
+            if extra:
+                bad.append(('value-returned-for-failed-task', f'second run_tasks call on the same task objects: {sorted(failing2)} '
+                            f'fail now, yet values were returned for {extra}, which fail or read a failed '
+                            f"dependency's result (they succeeded in the first call)"))
+            missing = [n for n in dedup(req) if n not in tainted2 and n not in got2]
+            if missing:
+                bad.append(('untainted-task-missing-from-result', f'second call: {missing} missing (tainted {sorted(tainted2)})'))
+            rep.count('second_call_tainted_tasks', len(tainted2))
     report_bad(rep, scn, bad)
     return bool(failing) and len(E - tainted) >= 1
 
@@ -171,6 +203,7 @@ def run_shard(rep):
     rep.require('failing_tasks', 500)
     rep.require('post_raise_windows_observed', 50)
     rep.require('untainted_values_checked', 500)
+    rep.require('second_calls_with_other_failures', 50)
     if sum(1 for v in rep.violations if v['key'] == 'never-terminates') >= 2:
         return
     drive(rep, 'C10', make_scn=make_scn, judge=judge, n_sim=cfg['n_sim'], n_real=cfg['n_real'], handles_spin=True)
